@@ -502,14 +502,7 @@ Proof.
   destruct xs; [congruence|reflexivity].
 Qed.
 
-Section VandermondeSolve.
-(* soundness and completeness of SolveRight (Gauss-Jordan), proved in LinAlg_proofs *)
-Hypothesis Hsound : forall r c (M : @matrix F) b x, wf_matrix r c M -> (0 < r)%nat -> (0 < c)%nat ->
-  length b = r -> solve_right K M b = Some x -> length x = c /\ mvec K M x = b.
-Hypothesis Hcomplete : forall r c (M : @matrix F) b y, wf_matrix r c M -> (0 < r)%nat -> (0 < c)%nat ->
-  length b = r -> length y = c -> mvec K M y = b -> solve_right K M b <> None.
-
-Theorem vandermonde_interp_gen : forall xs p, xs <> [] -> NoDup xs -> (length p <= length xs)%nat ->
+Theorem vandermonde_interp : forall xs p, xs <> [] -> NoDup xs -> (length p <= length xs)%nat ->
   vandermonde_interpolate K xs (map (peval K p) xs) = Ok (p ++ repeat 0 (length xs - length p)).
 Proof.
   intros xs p Hxs Hnd Hlen.
@@ -526,7 +519,7 @@ Proof.
   { subst V. rewrite <- Hpp. rewrite vandermonde_mvec. subst b pp.
     apply map_ext. intros x. rewrite (peval_r_pad K HK), (peval_eq_peval_r K HK). reflexivity. }
   destruct (solve_right K V b) as [c|] eqn:Es.
-  - destruct (Hsound n n V b c HV Hn Hn Hb Es) as [Hc Hmv].
+  - destruct (solve_right_sound K HK n n V b c HV Hn Hn Hb Es) as [Hc Hmv].
     f_equal. apply (poly_agree_eq K HK xs); [exact Hnd| lia | lia |].
     intros r Hr.
     assert (E : map (peval_r K c) xs = map (peval_r K pp) xs).
@@ -534,14 +527,8 @@ Proof.
       rewrite <- EV, Hmv, Hbpp. reflexivity. }
     destruct (In_nth _ _ 0 Hr) as [k [Hk Ek]]. subst r.
     rewrite <- (nth_map_peval_r c xs k Hk), <- (nth_map_peval_r pp xs k Hk), E. reflexivity.
-  - exfalso. exact (Hcomplete n n V b pp HV Hn Hn Hb Hpp Hbpp Es).
+  - exfalso. exact (solve_right_complete K HK n n V b pp HV Hn Hn Hb Hpp Hbpp Es).
 Qed.
-
-End VandermondeSolve.
-
-Theorem vandermonde_interp : forall xs p, xs <> [] -> NoDup xs -> (length p <= length xs)%nat ->
-  vandermonde_interpolate K xs (map (peval K p) xs) = Ok (p ++ repeat 0 (length xs - length p)).
-Proof. exact (vandermonde_interp_gen (solve_right_sound K HK) (solve_right_complete K HK)). Qed.
 
 (* distinct nodes: the Vandermonde system is always solvable (never ErrSingular), for arbitrary
    values; the witness is the Lagrange interpolant *)
@@ -588,14 +575,47 @@ Proof.
   rewrite <- Hev at 1. apply lagrange_interp; [exact Hnd|lia].
 Qed.
 
-(* ---- (e) Birkhoff: phi with derivative order 0 is the power ------------------------------ *)
+(* ---- (e) Birkhoff: Phi(t, x, j) = (t-j+1)...(t) * x^(t-j), zero when j > t ------------------ *)
 
-Lemma phi_0 : forall t x, phi K t x 0%N = fpow K x t.
+Theorem phi_eval : forall t x j, (N.to_nat j <= t)%nat ->
+  phi K t x j = frising K (t - N.to_nat j) (N.to_nat j) * fpow K x (t - N.to_nat j).
 Proof.
-  intros t x. unfold phi.
-  assert (E : N.ltb (N.of_nat t) 0%N = false) by (apply N.ltb_ge; lia).
-  rewrite E. cbn [N.to_nat pderiv_iter].
-  rewrite (peval_eq_peval_r K HK). apply (peval_r_monomial K HK).
+  intros t x j Hj. unfold phi.
+  assert (E : N.ltb (N.of_nat t) j = false) by (apply N.ltb_ge; lia).
+  rewrite E. rewrite (peval_eq_peval_r K HK).
+  rewrite <- (peval_r_monomial_c K HK).
+  apply (peval_r_coeff_eq K HK). intros i.
+  rewrite (pderiv_iter_nth K HK), !(nth_monomial K).
+  destruct (Nat.eqb i (t - N.to_nat j)) eqn:E1.
+  - apply Nat.eqb_eq in E1. subst i.
+    replace (t - N.to_nat j + N.to_nat j)%nat with t by lia. rewrite Nat.eqb_refl. ring.
+  - apply Nat.eqb_neq in E1.
+    assert (E2 : Nat.eqb (i + N.to_nat j) t = false) by (apply Nat.eqb_neq; lia).
+    rewrite E2. ring.
+Qed.
+
+Theorem phi_gt : forall t x j, (t < N.to_nat j)%nat -> phi K t x j = 0.
+Proof.
+  intros t x j Hj. unfold phi.
+  assert (E : N.ltb (N.of_nat t) j = true) by (apply N.ltb_lt; lia).
+  rewrite E. reflexivity.
+Qed.
+
+Corollary phi_0 : forall t x, phi K t x 0%N = fpow K x t.
+Proof.
+  intros t x. rewrite phi_eval by (cbn; lia). cbn [N.to_nat frising]. rewrite Nat.sub_0_r. ring.
+Qed.
+
+(* row of the Birkhoff matrix for a plain evaluation constraint (j = 0) is the Vandermonde row *)
+Lemma birkhoff_row_0 : forall x cols,
+  map (fun c => phi K c x 0%N) (seq 0 cols) = pow_row K x 1 cols.
+Proof.
+  intros x cols. apply (nth_ext_eq _ _ 0).
+  - rewrite map_length, seq_length, pow_row_length. reflexivity.
+  - intros i Hi. rewrite map_length, seq_length in Hi.
+    rewrite (nth_indep _ 0 (phi K 0%nat x 0%N)) by (rewrite map_length, seq_length; exact Hi).
+    rewrite (map_nth (fun c => phi K c x 0%N) (seq 0 cols) 0%nat i).
+    rewrite seq_nth by exact Hi. cbn [Nat.add]. rewrite phi_0, pow_row_nth by exact Hi. ring.
 Qed.
 
 End InterpProofs.
@@ -642,3 +662,6 @@ Proof. vm_compute. reflexivity. Qed.
 Example ex_basis_coeffs_closed_form :
   basis_at (Zp 101) [4;9;1;50]%Z 77%Z = Some (basis_coeffs (Zp 101) [4;9;1;50]%Z 77%Z).
 Proof. vm_compute. reflexivity. Qed.
+
+Example ex_phi : phi (Zp 101) 5 3%Z 2%N = 35%Z /\ phi (Zp 101) 2 3%Z 3%N = 0%Z /\ phi (Zp 101) 4 3%Z 0%N = 81%Z.
+Proof. vm_compute. repeat split; reflexivity. Qed.
